@@ -1,1 +1,325 @@
-//! schedule explorer (filled in with C06/C19)
+//! E3 — hand-rolled CHESS-style schedule explorer. Tasks are real closures running on persistent
+//! one-thread rayon pools; every `lock`, `write` and `flush` on the repository's shared primitives reaches
+//! the hook below through the cfg-guarded shim (`routee_compass_core::util::verif_sync`) and becomes a
+//! scheduling point. Exactly one task runs at any time. The explorer enumerates choice sequences depth
+//! first (choice 0 = let the running task continue), bounded by the number of preemptions.
+use routee_compass_core::util::verif_sync::{set_hook, Event};
+use serde_json::Value;
+use std::cell::Cell;
+use std::collections::HashMap;
+use std::sync::{Arc, Condvar, Mutex};
+use std::time::{Duration, Instant};
+
+thread_local! {
+    static TASK_ID: Cell<Option<usize>> = const { Cell::new(None) };
+}
+
+#[derive(Clone, Debug, PartialEq)]
+enum Status {
+    NotStarted,
+    Running,
+    Waiting(Ev),
+    Finished,
+}
+
+/// an event as seen by the explorer
+#[derive(Clone, Debug, PartialEq)]
+pub enum Ev {
+    Start,
+    Lock(usize),
+    Write(usize),
+    Flush(usize),
+}
+
+struct State {
+    status: Vec<Status>,
+    granted: Vec<bool>,
+    held: HashMap<usize, usize>,
+    results: Vec<Option<Value>>,
+    /// set when an execution is abandoned (deadlock): tasks pass straight through afterwards
+    abandoned: bool,
+    active: bool,
+}
+
+pub struct Shared {
+    state: Mutex<State>,
+    cv: Condvar,
+}
+
+#[derive(Clone, Debug)]
+pub struct Point {
+    /// enabled tasks in canonical order (last-run first if still enabled, then ascending ids)
+    pub enabled: Vec<usize>,
+    pub chosen: usize,
+    pub last_still_enabled: bool,
+    /// label of the event the chosen task performs
+    pub label: String,
+}
+
+#[derive(Clone, Debug, Default)]
+pub struct Execution {
+    pub points: Vec<Point>,
+    pub results: Vec<Option<Value>>,
+    pub deadlock: Option<String>,
+    pub diverged: Option<String>,
+}
+
+impl Execution {
+    pub fn choices(&self) -> Vec<usize> {
+        self.points.iter().map(|p| p.chosen).collect()
+    }
+    pub fn preemptions_before(&self, i: usize) -> usize {
+        self.points[..i].iter().filter(|p| p.chosen != 0 && p.last_still_enabled).count()
+    }
+    pub fn preemptions(&self) -> usize {
+        self.preemptions_before(self.points.len())
+    }
+}
+
+pub struct Explorer {
+    shared: Arc<Shared>,
+    pools: Vec<rayon::ThreadPool>,
+    n: usize,
+}
+
+pub type Task = Box<dyn FnOnce() -> Value + Send + 'static>;
+
+fn hook_wait(shared: &Arc<Shared>, task: usize, ev: Ev) {
+    let mut st = shared.state.lock().unwrap();
+    if st.abandoned || !st.active {
+        return;
+    }
+    st.status[task] = Status::Waiting(ev);
+    shared.cv.notify_all();
+    while !st.granted[task] && !st.abandoned {
+        st = shared.cv.wait(st).unwrap();
+    }
+    st.granted[task] = false;
+    st.status[task] = Status::Running;
+}
+
+impl Explorer {
+    pub fn new(n: usize) -> Explorer {
+        let shared = Arc::new(Shared {
+            state: Mutex::new(State { status: vec![Status::NotStarted; n], granted: vec![false; n], held: HashMap::new(), results: vec![None; n], abandoned: false, active: false }),
+            cv: Condvar::new(),
+        });
+        let pools = (0..n).map(|i| rayon::ThreadPoolBuilder::new().num_threads(1).thread_name(move |_| format!("verif-task-{}", i)).build().expect("pool")).collect();
+        let s2 = shared.clone();
+        set_hook(Some(Arc::new(move |e: Event| {
+            let task = TASK_ID.with(|t| t.get());
+            let task = match task {
+                Some(t) => t,
+                None => return, // not one of our tasks: pass straight through
+            };
+            match e {
+                Event::Lock(id) => hook_wait(&s2, task, Ev::Lock(id)),
+                Event::Write(id) => hook_wait(&s2, task, Ev::Write(id)),
+                Event::Flush(id) => hook_wait(&s2, task, Ev::Flush(id)),
+                Event::Unlock(id) => {
+                    let mut st = s2.state.lock().unwrap();
+                    if st.held.get(&id) == Some(&task) {
+                        st.held.remove(&id);
+                    }
+                }
+            }
+        })));
+        Explorer { shared, pools, n }
+    }
+
+    /// runs one execution: follows `prefix`, then always takes choice 0. `label` names events for replay checking.
+    pub fn run_once(&self, prefix: &[usize], expect_labels: Option<&[String]>, tasks: Vec<Task>, label: &dyn Fn(&Ev) -> String) -> Execution {
+        assert_eq!(tasks.len(), self.n);
+        {
+            let mut st = self.shared.state.lock().unwrap();
+            st.status = vec![Status::NotStarted; self.n];
+            st.granted = vec![false; self.n];
+            st.held.clear();
+            st.results = vec![None; self.n];
+            st.abandoned = false;
+            st.active = true;
+        }
+        for (i, t) in tasks.into_iter().enumerate() {
+            let shared = self.shared.clone();
+            self.pools[i].spawn(move || {
+                TASK_ID.with(|c| c.set(Some(i)));
+                hook_wait(&shared, i, Ev::Start);
+                let r = std::panic::catch_unwind(std::panic::AssertUnwindSafe(t));
+                let v = match r {
+                    Ok(v) => v,
+                    Err(p) => serde_json::json!({"task_panicked": crate::engine::panic_message(&p)}),
+                };
+                TASK_ID.with(|c| c.set(None));
+                let mut st = shared.state.lock().unwrap();
+                st.results[i] = Some(v);
+                st.status[i] = Status::Finished;
+                // locks still recorded as held by a finished task would be a leak in the shim bookkeeping
+                st.held.retain(|_, t| *t != i);
+                shared.cv.notify_all();
+            });
+        }
+        let mut exec = Execution::default();
+        let mut last: Option<usize> = None;
+        loop {
+            // wait for quiescence: every task waiting or finished
+            let mut st = self.shared.state.lock().unwrap();
+            let deadline = Instant::now() + Duration::from_secs(20);
+            loop {
+                let quiet = st.status.iter().all(|s| matches!(s, Status::Waiting(_) | Status::Finished));
+                if quiet {
+                    break;
+                }
+                let (g, to) = self.shared.cv.wait_timeout(st, Duration::from_millis(500)).unwrap();
+                st = g;
+                if to.timed_out() && Instant::now() > deadline {
+                    exec.deadlock = Some(format!("no quiescent state within 20 s; statuses {:?}", st.status));
+                    st.abandoned = true;
+                    st.active = false;
+                    self.shared.cv.notify_all();
+                    return exec;
+                }
+            }
+            if st.status.iter().all(|s| matches!(s, Status::Finished)) {
+                exec.results = st.results.clone();
+                st.active = false;
+                return exec;
+            }
+            // enabled tasks
+            let mut enabled: Vec<usize> = vec![];
+            for (t, s) in st.status.iter().enumerate() {
+                if let Status::Waiting(ev) = s {
+                    let ok = match ev {
+                        Ev::Lock(id) => !st.held.contains_key(id),
+                        _ => true,
+                    };
+                    if ok {
+                        enabled.push(t);
+                    }
+                }
+            }
+            if enabled.is_empty() {
+                let waits: Vec<String> = st.status.iter().enumerate().map(|(t, s)| format!("task {}: {:?} ", t, match s { Status::Waiting(e) => label(e), other => format!("{:?}", other) })).collect();
+                let held: Vec<String> = st.held.iter().map(|(id, t)| format!("{} held by task {}", label(&Ev::Lock(*id)), t)).collect();
+                exec.deadlock = Some(format!("no enabled task: {} ; {}", waits.join("; "), held.join("; ")));
+                st.abandoned = true;
+                st.active = false;
+                self.shared.cv.notify_all();
+                return exec;
+            }
+            let mut last_still_enabled = false;
+            if let Some(l) = last {
+                if let Some(pos) = enabled.iter().position(|t| *t == l) {
+                    enabled.remove(pos);
+                    enabled.insert(0, l);
+                    last_still_enabled = true;
+                }
+            }
+            let i = exec.points.len();
+            let choice = if i < prefix.len() { prefix[i] } else { 0 };
+            if choice >= enabled.len() {
+                exec.diverged = Some(format!("choice {} out of range at point {} (enabled {:?})", choice, i, enabled));
+                st.abandoned = true;
+                st.active = false;
+                self.shared.cv.notify_all();
+                return exec;
+            }
+            let t = enabled[choice];
+            let ev = match &st.status[t] {
+                Status::Waiting(e) => e.clone(),
+                _ => unreachable!(),
+            };
+            let lab = format!("t{}:{}", t, label(&ev));
+            if let Some(exp) = expect_labels {
+                if i < exp.len() && i < prefix.len() && exp[i] != lab {
+                    exec.diverged = Some(format!("replaying a prefix diverged at point {}: expected {} got {}", i, exp[i], lab));
+                    st.abandoned = true;
+                    st.active = false;
+                    self.shared.cv.notify_all();
+                    return exec;
+                }
+            }
+            if let Ev::Lock(id) = ev {
+                st.held.insert(id, t);
+            }
+            exec.points.push(Point { enabled: enabled.clone(), chosen: choice, last_still_enabled, label: lab });
+            st.granted[t] = true;
+            st.status[t] = Status::Running;
+            last = Some(t);
+            self.shared.cv.notify_all();
+        }
+    }
+}
+
+impl Drop for Explorer {
+    fn drop(&mut self) {
+        set_hook(None);
+    }
+}
+
+#[derive(Default, Clone, Debug)]
+pub struct ExploreStats {
+    pub schedules: u64,
+    pub schedules_per_bound: Vec<u64>,
+    pub max_points: usize,
+    pub total_points: u64,
+    pub capped: bool,
+}
+
+/// depth-first exploration of all schedules with at most `bound` preemptions (None = unbounded).
+/// `run` executes one schedule for a choice prefix (fresh scenario each time) and `check` judges it.
+/// returns false from `check` to stop early.
+pub fn explore(
+    bound: Option<usize>,
+    max_schedules: u64,
+    run: &mut dyn FnMut(&[usize], Option<&[String]>) -> Execution,
+    check: &mut dyn FnMut(&Execution) -> bool,
+) -> (ExploreStats, Option<String>) {
+    let mut stats = ExploreStats::default();
+    // stack of (prefix, labels of the parent's points for divergence checking)
+    let mut stack: Vec<(Vec<usize>, Vec<String>)> = vec![(vec![], vec![])];
+    while let Some((prefix, labels)) = stack.pop() {
+        if stats.schedules >= max_schedules {
+            stats.capped = true;
+            break;
+        }
+        let x = run(&prefix, if labels.is_empty() { None } else { Some(&labels) });
+        if let Some(d) = &x.diverged {
+            return (stats, Some(d.clone()));
+        }
+        stats.schedules += 1;
+        stats.max_points = stats.max_points.max(x.points.len());
+        stats.total_points += x.points.len() as u64;
+        let p = x.preemptions();
+        if stats.schedules_per_bound.len() <= p {
+            stats.schedules_per_bound.resize(p + 1, 0);
+        }
+        stats.schedules_per_bound[p] += 1;
+        if !check(&x) {
+            break;
+        }
+        if x.deadlock.is_some() {
+            continue;
+        }
+        let choices = x.choices();
+        let labs: Vec<String> = x.points.iter().map(|p| p.label.clone()).collect();
+        // branch on every later point (pushed in reverse so that the shallowest alternative is explored last = DFS order of the brief)
+        for i in (prefix.len()..x.points.len()).rev() {
+            let pt = &x.points[i];
+            let mut cost = x.preemptions_before(i);
+            if pt.last_still_enabled {
+                cost += 1;
+            }
+            if let Some(b) = bound {
+                if cost > b {
+                    continue;
+                }
+            }
+            for alt in (1..pt.enabled.len()).rev() {
+                let mut np: Vec<usize> = choices[..i].to_vec();
+                np.push(alt);
+                stack.push((np, labs[..i].to_vec()));
+            }
+        }
+    }
+    (stats, None)
+}
